@@ -419,6 +419,17 @@ def starts_for(TR, n, thorough):
     return st
 
 
+def poly_ref(n, order):
+    """reference for _poly_drift: powers of index/(n-1), each orthogonalised against the previous (orthogonalised) columns, constant last"""
+    u = np.arange(n) / (n - 1.0)
+    V = u[:, None] ** np.arange(order + 1)[None, :]
+    for i in range(1, order + 1):
+        x = V[:, i].copy()
+        for j in range(i):
+            V[:, i] -= (x @ V[:, j]) / (V[:, j] @ V[:, j]) * V[:, j]
+    return np.hstack((V[:, 1:], V[:, :1]))
+
+
 def drift_oracles(ck, dm):
     ndr = 0
     ns = [8, 17, 33, 64, 100] if not ck.thorough() else list(range(4, 130, 3))
@@ -519,8 +530,6 @@ def drift_oracles(ck, dm):
                         continue
                     if not np.allclose(P[:, -1], 1.0):
                         ck.fail("drift/poly-constant-last", "last polynomial-drift column is not the constant", rep)
-                    if tag == "far-origin":
-                        continue
                     # column k-1 has exact degree k: its k-th finite difference is a non-zero constant
                     for k in range(1, order + 1):
                         c = P[:, k - 1] / np.max(np.abs(P[:, k - 1]))
@@ -529,15 +538,22 @@ def drift_oracles(ck, dm):
                         if not (np.max(np.abs(dk)) > 1e-9 and np.max(np.abs(dk1)) < 1e-6 * max(1.0, np.max(np.abs(dk)) * 1e3)):
                             ck.fail("drift/poly-column-order", "polynomial drift column %d is not a polynomial of degree %d (start %g)" % (k - 1, k, start), rep)
                             break
-                    # same basis (up to the scale/sign of each column) whatever the time origin
+                    # closed form of the current code: Gram-Schmidt of the powers of u = (t - t_first) / (t_last - t_first)
+                    # = index / (n - 1): independent of TR and of the time origin; column k-1 has degree k, constant last
+                    R = poly_ref(n, order)
+                    err = np.max(np.abs(P - R) / np.maximum(np.max(np.abs(R), axis=0), 1e-300))
+                    if err > 1e-7:
+                        ck.fail("drift/poly-closed-form/%s" % tag, "polynomial drift (order %d, frametimes %g + %g*arange(%d)) differs from the Gram-Schmidt "
+                                "orthogonalisation of the powers of index/(n-1) by %g (relative)" % (order, start, TR, n, err), rep)
+                    # same basis whatever the time origin
                     if tag == "start0":
                         base_p[order] = P
-                    elif order in base_p and tag == "shifted":
+                    elif order in base_p:
                         P0 = base_p[order]
-                        cosang = np.abs(np.sum(P0 * P, 0)) / (np.linalg.norm(P0, axis=0) * np.linalg.norm(P, axis=0))
-                        if np.min(cosang) < 1 - 1e-6:
-                            ck.fail("drift/poly-not-origin-invariant", "polynomial drift column %d spans a different direction when the time origin is moved to %g "
-                                    "(|cos| = %g)" % (int(np.argmin(cosang)), start, np.min(cosang)), rep)
+                        d = np.max(np.abs(P0 - P) / np.maximum(np.max(np.abs(P0), axis=0), 1e-300))
+                        if d > 1e-7:
+                            ck.fail("drift/poly-not-origin-invariant", "polynomial drift (order %d) changes by %g (relative) when the time origin is moved to %g"
+                                    % (order, d, start), rep)
     return ndr
 
 
